@@ -146,7 +146,10 @@ static void project(char *buf, size_t n, const char *topdesc) {
     else if (!c) k += snprintf(buf + k, n - k, "ctx:hidden");
     else k += snprintf(buf + k, n - k, "ctx:%s,%ld,%zu,%d", c->state == M_CTX_LOOPING ? "looping" : "idle", (long)m_ctx_len(), c->stats.running_modules, (int)c->quit);
     for (int i = 0; i < nmods; i++)
-        k += snprintf(buf + k, n - k, "|%s:%s:%d", LN[i], stname(H[i]), mailbox_len(H[i]));
+        if (H[i] && m_mod_state(H[i]) != M_MOD_ZOMBIE)
+            k += snprintf(buf + k, n - k, "|%s:%s:%d:%d:%d:%d:%d", LN[i], stname(H[i]), mailbox_len(H[i]), (int)m_queue_len(H[i]->batch.events),
+                          (int)m_queue_len(H[i]->stashed), (int)m_stack_len(H[i]->recvs), (int)(H[i]->batch.len > 99 ? 99 : H[i]->batch.len));
+        else k += snprintf(buf + k, n - k, "|%s:%s:0:0:0:0:0", LN[i], stname(H[i]));
     k += snprintf(buf + k, n - k, "|pay:");
     for (int p = 1; p <= maxpay; p++) k += snprintf(buf + k, n - k, "%c", !PAY[p].live ? 'u' : vp_watch_freed[PAY[p].watch] ? (vp_watch_freed[PAY[p].watch] > 1 ? '2' : 'f') : 'l');
     snprintf(buf + k, n - k, "|d%d|%s", depth, topdesc);
@@ -212,14 +215,16 @@ static int evdesc_cb(void *up, void *data) {
     if (evt->type == M_SRC_TYPE_PS && evt->ps_evt) {
         const m_evt_ps_t *ps = evt->ps_evt;
         int si = ps->sender ? lidx_of_mod(ps->sender) : -1;
-        snprintf(evdesc + k, sizeof evdesc - k, "%s%d/%s/%s/%d", k ? ";" : "", pay_id(ps->data), ps->sender ? (si >= 0 ? LN[si] : "?") : "ctx",
-                 logical_topic(ps->topic, tb, sizeof tb), (int)ps->system);
+        snprintf(evdesc + k, sizeof evdesc - k, "%s%d/%s/%s/%d/%s", k ? ";" : "", pay_id(ps->data), ps->sender ? (si >= 0 ? LN[si] : "?") : "ctx",
+                 logical_topic(ps->topic, tb, sizeof tb), (int)ps->system, evt->userdata ? (const char *)evt->userdata : "");
     } else snprintf(evdesc + k, sizeof evdesc - k, "%stype%d", k ? ";" : "", evt->type);
     return 0;
 }
 
+static const m_queue_t *cur_evts[16];
 static bool enter_cb(m_mod_t *self, const char *kind, const m_queue_t *evts) {
     if (failed) return true;
+    cur_evts[depth + 1] = evts;
     int mi = lidx_of_mod(self);
     char top[1200], sig[160];
     evdesc[0] = 0;
@@ -247,7 +252,11 @@ static bool enter_cb(m_mod_t *self, const char *kind, const m_queue_t *evts) {
 static bool cb_eval(m_mod_t *self) { return enter_cb(self, "eval", NULL); }
 static bool cb_start(m_mod_t *self) { return enter_cb(self, "start", NULL); }
 static void cb_stop(m_mod_t *self) { enter_cb(self, "stop", NULL); }
-static void cb_evt(m_mod_t *self, const m_queue_t *const evts) { enter_cb(self, "evt", evts); }
+static void cb_evt(m_mod_t *self, const m_queue_t *const evts) { enter_cb(self, "evt0", evts); }
+static void cb_evt1(m_mod_t *self, const m_queue_t *const evts) { enter_cb(self, "evt1", evts); }
+static void cb_evt2(m_mod_t *self, const m_queue_t *const evts) { enter_cb(self, "evt2", evts); }
+static int nth_idx; static m_evt_t *nth_evt;
+static int nth_cb(void *up, void *data) { if (--nth_idx == 0) { nth_evt = data; return 1; } return 0; }
 
 /* ---- user actions ---- */
 static int lidx(const char *ln) { for (int i = 0; i < nmods; i++) if (!strcmp(LN[i], ln)) return i; return -1; }
@@ -333,7 +342,23 @@ static void exec_action(gw_edge *e) {
     else if (!strcmp(a, "PublishSys")) { static int dummy; r = m_mod_ps_publish(H[m], "LIBMODULE_ANYTHING", &dummy, 0); }
     else if (!strcmp(a, "Broadcast")) { int p = (int)e->args[1], au = (int)e->args[2]; r = m_mod_ps_publish(H[m], NULL, new_payload(p, au), au ? M_PS_AUTOFREE : 0); }
     else if (!strcmp(a, "Pill")) r = m_mod_ps_poisonpill(H[m], H[lidx(e->sargs[1])]);
-    else if (!strcmp(a, "Subscribe")) r = m_mod_ps_subscribe(H[m], real_topic(e->sargs[1], tb, sizeof tb), M_SRC_DUP, NULL);
+    else if (!strcmp(a, "Subscribe")) {
+        /* userdata of the subscription = its pattern (a static string), so that the handler can tell which subscription matched */
+        static const char *tags[] = {"t1", "t2", "t.", "CTX_STARTED", "CTX_STOPPED", "MOD_STARTED", "MOD_STOPPED", "CTX_TICK"};
+        const char *tag = NULL;
+        for (unsigned i = 0; i < sizeof tags / sizeof *tags; i++) if (!strcmp(tags[i], e->sargs[1])) tag = tags[i];
+        m_src_flags pf = e->sargs[2][0] == 'L' ? M_SRC_PRIO_LOW : e->sargs[2][0] == 'H' ? M_SRC_PRIO_HIGH : M_SRC_PRIO_NORM;
+        r = m_mod_ps_subscribe(H[m], real_topic(e->sargs[1], tb, sizeof tb), M_SRC_DUP | pf, tag);
+    }
+    else if (!strcmp(a, "SetBatchSize")) r = m_mod_set_batch_size(H[m], (size_t)e->args[1]);
+    else if (!strcmp(a, "Stash")) {
+        nth_idx = (int)e->args[1]; nth_evt = NULL;
+        if (cur_evts[depth]) m_queue_iterate(cur_evts[depth], nth_cb, NULL);
+        r = m_mod_stash(H[m], nth_evt);
+    }
+    else if (!strcmp(a, "Unstash")) r = m_mod_unstash(H[m], e->args[1] >= 9 ? (size_t)-1 : (size_t)e->args[1]);
+    else if (!strcmp(a, "Become")) r = m_mod_become(H[m], e->args[1] == 1 ? cb_evt1 : cb_evt2);
+    else if (!strcmp(a, "Unbecome")) r = m_mod_unbecome(H[m]);
     else if (!strcmp(a, "Unsubscribe")) r = m_mod_ps_unsubscribe(H[m], real_topic(e->sargs[1], tb, sizeof tb));
     else { fail("core-unknown-action", "driver does not know action %s", a); return; }
     if (failed) return;
